@@ -96,6 +96,9 @@ func (v *formatter_) GetMaximum() int {
 // Public
 
 func (v *formatter_) FormatValue(value any) (source string) {
+	// Start from a clean state, an earlier call may have panicked part way.
+	v.depth_ = 0
+	v.result_.Reset()
 	v.formatValue(value)
 	v.appendNewline()
 	source = v.getResult()
